@@ -4,11 +4,15 @@ Line-protocol driver for the cell-space models (C06, C07, C18-cells).
 One output line per input line; see harness/cells_common.py for the producer and the grammar.
 
   scenario grid <moore|vn|hex> <torus 0|1> <cap|-> <d1,d2,...>
-  scenario net <directed 0|1> <cap|-> <n> [a-b ...]
+  scenario net <0|1|m0|m1> <cap|-> <n> [a-b ...]      (Graph | DiGraph | MultiGraph | MultiDiGraph; any edge list over 0..n-1,
+                                                       also self loops and repeated / antiparallel edges: same adjacency dicts)
   scenario vor <cap|-> <n> p:x,y ... t:a,b,c ...
-  scenario vor d <n> p:x,y ... t:a,b,c ... a:num/den ...   (default capacity_function; a: the exact cell areas, one per cell)
+  scenario vor d <n> p:x,y ... t:a,b,c ... a:num/den ... [c:k]   (default capacity_function; a: the exact cell areas, one per cell;
+                                                       c:k: `capacity=k` passed as well — overwritten by the function on every cell)
   new cell|fixed|g2d | set a c|- | moveto a c | moverel a key | move a Dir k | remove a
   tryrandom 0|1 | randempty d... | randcell d...      -> result | observation dump
+  agentscopy c      -> `l = cell.agents; l.clear()`: what the list held | observation dump (the list is a copy: nothing changes)
+  clearcell c       -> `for a in cell.agents: a.remove()` | observation dump
   conns c | nbhd c r ic | nbprop c | mask c r ic | nbagents c r ic      -> result
   connect c c2 key|- | disconnect c c2                                  -> result (`Cell.connect` / `disconnect`)
   coll <expr> cells|agents|len|same | has c | get c | randcell d... | randagent d...      -> result (`CellCollection` API)
@@ -89,7 +93,10 @@ def dump (sp : Space) (s : State) : String :=
   let empty := sp.cells.filter (isEmpty s)
   let full := sp.cells.filter (isFull sp s)
   let layer := if sp.isGrid then fmtCoords (sp.cells.filter fun c => s.flag c == some true) else "na"
-  s!"ag={" ".intercalate ags} | occ={" ".intercalate occ} | empty={fmtCoords empty} | full={fmtCoords full} | layer={layer} | pempty={layer} | empties={fmtCoords (empties sp s)} | agents={" ".intercalate ((spaceAgents sp s).map toString)} | reg={" ".intercalate (s.registry.map toString)}"
+  -- `cell.empty` off grids: a plain attribute that exists only once `add_agent` has run on the cell (`c:1` / `c:0`)
+  let attr := if sp.isGrid then "na" else
+    " ".intercalate (sp.cells.filterMap fun c => (s.flag c).map fun b => s!"{fmtCoord c}:{if b then 1 else 0}")
+  s!"ag={" ".intercalate ags} | occ={" ".intercalate occ} | empty={fmtCoords empty} | full={fmtCoords full} | layer={layer} | pempty={layer} | empties={fmtCoords (empties sp s)} | agents={" ".intercalate ((spaceAgents sp s).map toString)} | reg={" ".intercalate (s.registry.map toString)} | attr={attr}"
 
 def parseKind : String → Option AKind
   | "cell" => some .cell
@@ -135,7 +142,8 @@ def parseScenario : List String → Option (Option Space)
     let dims ← parseCoord dims
     if dims.isEmpty then none else pure (mkGrid k t cap dims)
   | "net" :: d :: cap :: n :: edges => do
-    let d ← parseBool d
+    -- `m0` / `m1`: MultiGraph / MultiDiGraph — `G.neighbors` is the same adjacency dict, parallel edges add nothing to it
+    let d ← (match d with | "m0" => some false | "m1" => some true | _ => parseBool d)
     let cap ← parseOpt String.toNat? cap
     let n ← n.toNat?
     let es ← edges.mapM parseEdge
@@ -149,8 +157,11 @@ def parseScenario : List String → Option (Option Space)
     let ts := rest.filter (·.startsWith "t:")
     let ss := rest.filter (·.startsWith "s:")
     let ars := rest.filter (·.startsWith "a:")
+    -- optional `c:k`: a `capacity` argument passed next to the default `capacity_function`, which overwrites it on every cell
+    let cs := rest.filter (·.startsWith "c:")
+    if cs.length > 1 || !(cs.all fun t => ((t.drop 2).toString.toNat?).isSome) then none else
     if ss.length > 1 || !(ss.all fun t => ((t.drop 2).toString.toNat?).isSome) then none else
-    if pts.length != n || ars.length != n || pts.length + ts.length + ss.length + ars.length != rest.length then none else
+    if pts.length != n || ars.length != n || pts.length + ts.length + ss.length + ars.length + cs.length != rest.length then none else
     let _ ← pts.mapM (fun p => parseCoord (p.drop 2).toString)
     let tris ← ts.mapM (fun t => parseTri (t.drop 2).toString)
     let areas ← ars.mapM (fun a => match (a.drop 2).toString.splitOn "/" with
@@ -363,6 +374,21 @@ def stepLine (d : DSt) (ws : List String) : DSt × String :=
             ({ d with caches := cs }, "ok " ++ fmtCoords (sortCoords v))
         else (d, "err Key")
       | _, _, _ => (d, "bad-op")
+    | ["agentscopy", c] =>
+      -- `cell.agents` hands out a copy of the cell's list: scribbling on it (`clear()`) leaves the state alone
+      match parseCoord c with
+      | none => (d, "bad-op")
+      | some c =>
+        if c ∈ sp.cells then (d, "ok " ++ ".".intercalate ((d.st.occ c).map toString) ++ " | " ++ dump sp d.st)
+        else (d, "err Key | " ++ dump sp d.st)
+    | ["clearcell", c] =>
+      match parseCoord c with
+      | none => (d, "bad-op")
+      | some c =>
+        if c ∈ sp.cells then
+          let (s', r) := clearCell sp d.st c
+          ({ d with st := s' }, fmtRes r ++ " | " ++ dump sp s')
+        else (d, "err Key | " ++ dump sp d.st)
     | _ =>
       match parseOp ws with
       | none => (d, "bad-op")
